@@ -76,4 +76,23 @@ theorem any_message (h : Header) (gs L : List Group) (hwf : gs.all wfGroupC = tr
   rw [← encodeMsg_opFirst h L]
   exact encodeMsg_eq_ser h _ _ hwf' hL'
 
+/-! ### what the history oracle of the `encoded` op expects, as theorems -/
+
+/-- the header is exactly eight octets, whatever its fields -/
+theorem header_is_8 (h : Header) : (encHeader h).length = 8 := by
+  simp [encHeader, be16, be32]
+
+/-- The bytes depend on the header only through their first eight octets: changing the header of a message changes
+    those eight octets to the new header and nothing after them. -/
+theorem header_change (h h' : Header) (L : List Group) :
+    encodeMsg h' L = encHeader h' ++ (encodeMsg h L).drop 8 := by
+  have h8 := header_is_8 h
+  simp only [encodeMsg]
+  rw [List.drop_append_of_le_length (by omega), ← h8, List.drop_length, List.nil_append]
+
+/-- a message without groups is its header, an empty operation group and the end tag -/
+theorem no_groups (h : Header) : encodeMsg h [] = encHeader h ++ [0x01, 0x03] := by
+  simp [encodeMsg, encAttributes, firstOp, restGroups, encGroups]
+  decide
+
 end Ipp.Props.C03
